@@ -28,17 +28,18 @@ const SDK = "github.com/Jigsaw-Code/outline-sdk"
 
 // Prog is the loaded program.
 type Prog struct {
-	Dir     string
-	Fset    *token.FileSet
-	Pkgs    []*packages.Package          // root (repo) packages
-	AllPkgs map[string]*packages.Package // every package in the import closure, by path
-	SSA     *ssa.Program
-	All     map[*ssa.Function]bool
-	CG      *callgraph.Graph
-	Graph   string          // "vta" or "cha"
-	Fns     []*ssa.Function // repo functions with bodies (including closures), sorted by name
-	byName  map[string]*ssa.Function
-	Config  string // GOOS/GOARCH
+	Dir        string
+	Fset       *token.FileSet
+	Pkgs       []*packages.Package          // root (repo) packages
+	AllPkgs    map[string]*packages.Package // every package in the import closure, by path
+	SSA        *ssa.Program
+	All        map[*ssa.Function]bool
+	CG         *callgraph.Graph
+	Graph      string          // "vta" or "cha"
+	Fns        []*ssa.Function // repo functions with bodies (including closures), sorted by name
+	byName     map[string]*ssa.Function
+	Config     string // GOOS/GOARCH
+	nonNilBusy map[*ssa.Function]bool
 
 	calleeCache map[ssa.CallInstruction][]*ssa.Function
 	cellStores  map[*ssa.Alloc][]*ssa.Store
